@@ -536,16 +536,17 @@ def generate(ctx):
             ctx.run("kh_master", [2, sd], "byron-many-rounds")
             found += 1
         t += 1
-    found, t = 0, 0
-    while found < ctx.n(2, 6) and t < 4000:
-        sd = hashlib.sha256(b"kholaw-rounds-%d" % t).digest()
-        h, r = hmac512(b"ed25519 seed", sd), 0
-        while h[31] & 0x20:
-            h, r = hmac512(b"ed25519 seed", h), r + 1
-        if r >= 4:
-            ctx.run("kh_master", [0, sd], "kholaw-many-rounds")
-            found += 1
-        t += 1
+    for need, cnt in ((4, ctx.n(2, 6)), (9, ctx.n(2, 4)), (12, ctx.n(1, 3))):
+        found, t = 0, 0
+        while found < cnt and t < 60000:
+            sd = hashlib.sha256(b"kholaw-rounds-%d-%d" % (need, t)).digest()
+            h, r = hmac512(b"ed25519 seed", sd), 0
+            while h[31] & 0x20:
+                h, r = hmac512(b"ed25519 seed", h), r + 1
+            if r >= need:
+                ctx.run("kh_master", [0, sd], "kholaw-%d-rounds" % need)
+                found += 1
+            t += 1
     # --- derivation along paths
     for _ in range(ctx.n(60, 1500)):
         if not ctx.time_left():
